@@ -48,13 +48,19 @@ func (q *seqRun) runResub() {
 	}
 	prov := q.stickyProviderFor(q.aL) // one transport object for every period
 	label := "resubscribed"
+	tapped := map[string]bool{}
 	for p := 0; p < s.Periods; p++ {
 		setting := fmt.Sprintf("in subscription period %d of one subscriber transport object (Subscribe/Unsubscribe %d time(s) before)", p+1, p)
 		delay := time.Duration(0)
 		if p == 0 {
 			delay = time.Duration(s.DelayUs) * time.Microsecond
 		}
-		x, err := q.subscribeVia(fmt.Sprintf("R%d", p+1), prov, s.Op, s.User, delay)
+		user := s.User
+		if s.VaryTopic && hasVar(s.Op) && p > 0 {
+			// every period subscribes to another topic of the scope
+			user = fmt.Sprintf("%s%d", s.User, p+1)
+		}
+		x, err := q.subscribeVia(fmt.Sprintf("R%d", p+1), prov, s.Op, user, delay)
 		if err != nil {
 			if p == 0 {
 				q.inconclusive("Subscribe: " + err.Error())
@@ -68,8 +74,27 @@ func (q *seqRun) runResub() {
 		if !x.dumpOK {
 			q.count("worker_goroutines_not_identified", 1)
 		}
-		if !q.waitBrokerSubscriptions([]string{q.topic}, []*subscriber{x}) {
+		if x.topic != q.topic && !tapped[x.topic] {
+			tapped[x.topic] = true
+			if err := q.startTapOn(x.topic); err != nil {
+				q.inconclusive("tap: " + err.Error())
+				return
+			}
+		}
+		if !q.waitBrokerSubscriptions([]string{x.topic}, []*subscriber{x}) {
 			return
+		}
+		if p > 0 && q.subs[p-1].topic != x.topic {
+			// strays on the topic of the period before: nobody is subscribed to
+			// it any more, nobody may get them (published first, so that they are
+			// routed before this period's own messages)
+			for i := 0; i < 2; i++ {
+				if _, e := q.publishTo(q.subs[p-1], "valid", 10+p); e != nil {
+					q.inconclusive("publish failed: " + e.Error())
+					return
+				}
+				q.count("resubscribe_strays_on_the_previous_topic", 1)
+			}
 		}
 		n := s.N
 		if p > 0 {
